@@ -1,13 +1,212 @@
 package main
 
-import "fmt"
+import (
+	"fmt"
+	"sort"
+	"strings"
+
+	"github.com/echovault/sugardb/verifrt"
+)
 
 var extraSelf []func()
 
+// exploreFuncs runs a litmus program (threads over verifrt primitives) under the DFS explorer.
+func exploreFuncs(mk func() ([]func(), func() string), bound int) (outcomes map[string]int, execs int, deadlocks, livelocks int) {
+	outcomes = map[string]int{}
+	var explore func(prefix []int)
+	explore = func(prefix []int) {
+		verifrt.BeginControlled()
+		threads, outcome := mk()
+		ch := &dfsChooser{prefix: prefix}
+		ph := verifrt.RunPhase(ch, nil, threads...)
+		verifrt.EndControlled()
+		execs++
+		k := outcome()
+		if ph.Livelock {
+			livelocks++
+			k += "|LIVELOCK"
+		} else if ph.Deadlock {
+			deadlocks++
+			k += "|DEADLOCK"
+		}
+		if ch.diverged != "" {
+			k += "|DIVERGED"
+		}
+		outcomes[k]++
+		pre := 0
+		for i, p := range ch.points {
+			if i >= len(prefix) {
+				cost := pre
+				if p.curEnabled {
+					cost++
+				}
+				if bound < 0 || cost <= bound {
+					for alt := 1; alt < p.n; alt++ {
+						np := make([]int, i+1)
+						for j := 0; j < i; j++ {
+							np[j] = ch.points[j].chosen
+						}
+						np[i] = alt
+						explore(np)
+					}
+				}
+			}
+			if p.chosen != 0 && p.curEnabled {
+				pre++
+			}
+		}
+	}
+	explore(nil)
+	return
+}
+
+func keysOf(m map[string]int) string {
+	var ks []string
+	for k := range m {
+		ks = append(ks, k)
+	}
+	sort.Strings(ks)
+	return strings.Join(ks, " ")
+}
+
 func runSelftests() int {
+	fails := 0
+	expect := func(name string, got, want string, execs int) {
+		st := "ok"
+		if got != want {
+			st = "FAIL"
+			fails++
+		}
+		fmt.Printf("selftest %-34s %-4s outcomes={%s} want={%s} executions=%d\n", name, st, got, want, execs)
+	}
+	// 1. lock-protected counter: exactly one outcome, several executions
+	o, n, _, _ := exploreFuncs(func() ([]func(), func() string) {
+		var m verifrt.Mutex
+		x := 0
+		t := func() { m.Lock(); v := x; verifrt.Yield(); x = v + 1; m.Unlock() }
+		return []func(){t, t}, func() string { return fmt.Sprint(x) }
+	}, -1)
+	expect("mutex-protected counter", keysOf(o), "2", n)
+	if n < 2 {
+		fmt.Println("selftest FAIL: no interleaving explored")
+		fails++
+	}
+	// 2. unprotected read-modify-write through atomics: lost update reachable
+	o, n, _, _ = exploreFuncs(func() ([]func(), func() string) {
+		var a verifrt.AtomicInt64
+		t := func() { v := a.Load(); a.Store(v + 1) }
+		return []func(){t, t}, func() string { return fmt.Sprint(a.Load()) }
+	}, -1)
+	// (the final Load runs outside controlled mode)
+	expect("atomic load/store lost update", keysOf(o), "1 2", n)
+	// 3. AB/BA lock order
+	o, n, d, _ := exploreFuncs(func() ([]func(), func() string) {
+		var a, b verifrt.Mutex
+		return []func(){func() { a.Lock(); b.Lock(); b.Unlock(); a.Unlock() }, func() { b.Lock(); a.Lock(); a.Unlock(); b.Unlock() }}, func() string { return "done" }
+	}, -1)
+	expect("AB/BA deadlock", keysOf(o), "done done|DEADLOCK", n)
+	_ = d
+	// 4. RWMutex writer preference: recursive read lock with a writer in between deadlocks
+	o, n, _, _ = exploreFuncs(func() ([]func(), func() string) {
+		var m verifrt.RWMutex
+		return []func(){func() { m.RLock(); m.RLock(); m.RUnlock(); m.RUnlock() }, func() { m.Lock(); m.Unlock() }}, func() string { return "done" }
+	}, -1)
+	expect("recursive RLock vs writer", keysOf(o), "done done|DEADLOCK", n)
+	// 5. spin loop terminates when the flag is set by another thread, livelock when nobody sets it
+	o, n, _, _ = exploreFuncs(func() ([]func(), func() string) {
+		var f verifrt.AtomicBool
+		return []func(){func() {
+			for !f.Load() {
+			}
+		}, func() { f.Store(true) }}, func() string { return "done" }
+	}, -1)
+	expect("spin loop with setter", keysOf(o), "done", n)
+	o, n, _, l := exploreFuncs(func() ([]func(), func() string) {
+		var f verifrt.AtomicBool
+		return []func(){func() {
+			for !f.Load() {
+			}
+		}}, func() string { return "done" }
+	}, -1)
+	expect("spin loop without setter", keysOf(o), "done|LIVELOCK", n)
+	_ = l
+	// 6. unbuffered channel rendezvous and buffered channel
+	o, n, _, _ = exploreFuncs(func() ([]func(), func() string) {
+		ch := make(chan int)
+		got := 0
+		return []func(){func() { verifrt.BeforeSend(ch); ch <- 7; verifrt.AfterSend(ch) }, func() { verifrt.BeforeRecv(ch); got = <-ch; verifrt.AfterRecv(ch) }}, func() string { return fmt.Sprint(got) }
+	}, -1)
+	expect("unbuffered rendezvous", keysOf(o), "7", n)
+	o, n, _, _ = exploreFuncs(func() ([]func(), func() string) {
+		ch := make(chan int, 2)
+		var got []int
+		return []func(){func() { verifrt.BeforeSend(ch); ch <- 1; verifrt.AfterSend(ch) }, func() { verifrt.BeforeSend(ch); ch <- 2; verifrt.AfterSend(ch) },
+				func() {
+					for i := 0; i < 2; i++ {
+						verifrt.BeforeRecv(ch)
+						v := <-ch
+						verifrt.AfterRecv(ch)
+						got = append(got, v)
+					}
+				}},
+			func() string { return fmt.Sprint(got) }
+	}, -1)
+	expect("buffered channel order", keysOf(o), "[1 2] [2 1]", n)
+	// 7. WaitGroup + spawned goroutine
+	o, n, _, _ = exploreFuncs(func() ([]func(), func() string) {
+		var wg verifrt.WaitGroup
+		var m verifrt.Mutex
+		x := 0
+		return []func(){func() {
+			for i := 0; i < 2; i++ {
+				wg.Add(1)
+				verifrt.Go(func() { m.Lock(); x++; m.Unlock(); wg.Done() })
+			}
+			wg.Wait()
+			x *= 10
+		}}, func() string { return fmt.Sprint(x) }
+	}, -1)
+	expect("waitgroup + spawn", keysOf(o), "20", n)
+	// 8. preemption bound 0 explores only non-preemptive schedules
+	o0, n0, _, _ := exploreFuncs(func() ([]func(), func() string) {
+		var a verifrt.AtomicInt64
+		t := func() { v := a.Load(); a.Store(v + 1) }
+		return []func(){t, t}, func() string { return fmt.Sprint(a.Load()) }
+	}, 0)
+	expect("bound 0 hides the lost update", keysOf(o0), "2", n0)
 	for _, f := range extraSelf {
 		f()
 	}
+	// 9. schedule replay determinism on the real implementation
+	sc := &SchedScenario{Name: "replay", Setup: []Action{cmd("SET", "a", "5")}, Threads: [][]Action{{cmd("INCR", "a")}, {cmd("INCR", "a")}}, Bound: 2}
+	r := exploreScenario(sc)
+	if r.Err != "" || r.Diverged != "" {
+		fmt.Println("selftest FAIL: INCR||INCR exploration:", r.Err, r.Diverged)
+		fails++
+	} else {
+		var lost *SchedOutcome
+		for k, o := range r.Outcomes {
+			if _, ok := r.Serial[k]; !ok {
+				lost = o
+			}
+		}
+		fmt.Printf("selftest INCR||INCR: executions=%d outcomes=%d serial=%d max_points=%d\n", r.Executions, len(r.Outcomes), len(r.Serial), r.MaxPoints)
+		if lost != nil {
+			a1, _, _ := runSchedule(sc, lost.Choices, nil, false)
+			a2, _, _ := runSchedule(sc, lost.Choices, nil, false)
+			if a1.Key() != lost.Key() || a2.Key() != lost.Key() {
+				fmt.Println("selftest FAIL: replaying a recorded schedule gave a different outcome")
+				fails++
+			} else {
+				fmt.Println("selftest replay of recorded schedule: identical outcome twice:", lost.Key())
+			}
+		}
+	}
+	if fails > 0 {
+		fmt.Printf("selftest: %d FAILED\n", fails)
+		return 1
+	}
+	fmt.Println("selftest: all passed")
 	return 0
 }
 
